@@ -7,8 +7,9 @@ import PegtlVerif.Lemmas.SemHelpers
 namespace Pegtl
 open Pegtl.Spec
 
-/-- An action that neither vetoes nor throws (void `apply` / `apply0`, or none). -/
-def PlainAct (s : ActionSpec) : Prop := s.throwMod = 0 ∧ (s.isBool = false ∨ s.vetoMod = 0)
+/-- An action that neither vetoes nor throws (void `apply` / `apply0`, or none) and has no
+    `match()` of its own. -/
+def PlainAct (s : ActionSpec) : Prop := s.throwMod = 0 ∧ (s.isBool = false ∨ s.vetoMod = 0) ∧ s.wrap = .none
 
 /-- `internal::must< Rules... >`: `success`, `must< R >`, or a `seq` of `must< R >`. -/
 def MustLike (g : Grammar) (i : Nat) : Prop :=
